@@ -416,7 +416,7 @@ func ruleUsedCountWholeListing(c *Ctx, rule string) {
 		if len(ins) == 0 {
 			c.undecided(rule, fn, "collection of reserved subnets", nil, "no Insert into the unused-subnet set found")
 		} else {
-			ok, why := loopLeftOnlyWhenExhausted(c, fn, ins[0])
+			ok, why := loopLeftOnlyWhenExhausted(c, ins[0].Parent(), ins[0])
 			c.ob(rule, fn, "used ips and reserved ips are collected from the whole prefix listing", ins[0], ok, "the loop over ByPrefix(poolPrefix) has no break/return: an entry listed after a foreign one is still counted / offered for reuse "+why)
 		}
 	}
